@@ -69,9 +69,28 @@ def rule_error_display(ctx):
             flds = ERROR_FIELDS.get((rel, ty))
             if flds:
                 txt = A.fn_text(fn)
+                # `let Self { field, other: alias, .. } = self;` makes `field` / `alias` stand for `self.field`
+                binders = {}
+                for st, _ in A.find(fn.block, "Stmt::Local"):
+                    pat = st["pat"]
+                    if A.kind(pat) == "Pat::Struct" and st.get("init") and A.render(A.peel(st["init"]["expr"])) in ("self", "*self"):
+                        for fp in pat["fields"]:
+                            if A.kind(fp["member"]) == "Member::Named":
+                                ids = A.pat_idents(fp["pat"])
+                                if len(ids) == 1:
+                                    binders[fp["member"]["0"]["sym"]] = ids[0]
+                # names formatted by the write! calls: inline `{name..}` placeholders and identifier arguments
+                shown = set()
+                for x, _ in A.walk(fn.block):
+                    if A.kind(x) in ("Expr::Macro", "Stmt::Macro") and A.path_last(x["mac"]["path"]) in ("write", "writeln"):
+                        for t_ in x["mac"]["tokens"]:
+                            if A.kind(t_) == "Literal" and isinstance(t_.get("lit"), dict) and t_["lit"].get("kind") == "str":
+                                shown.update(re.findall(r"\{([A-Za-z_][A-Za-z0-9_]*)[:}]", t_["lit"].get("value") or ""))
+                            elif A.kind(t_) == "Ident":
+                                shown.add(t_["sym"])
                 for fld in flds:
                     ctx.instance(f"{construct}:{fld}")
-                    if not re.search(r"self\." + re.escape(fld) + r"\b", str(txt)):
+                    if not re.search(r"self\." + re.escape(fld) + r"\b", str(txt)) and binders.get(fld) not in shown:
                         ctx.report(f"err-msg:field:{construct}:{fld}", w, f"the message of `{ty}` no longer mentions `self.{fld}`: the error does not say what it is about", {})
     for key in ERROR_FIELDS:
         if key not in seen:
